@@ -13,6 +13,8 @@ def core_programs():
     P['flat24'] = progs.flat24()
     P['person'] = progs.person()
     P['document'] = progs.dremel_document()
+    # optional numeric leaves under a repeated group (first member required: a shape the generator handles)
+    P['repopt'] = progs.Program('repopt', [progs.leaf('Id', 'int64', tag='id'), progs.group('Friends', [progs.leaf('Name', 'int32', tag='name'), progs.leaf('Age', 'int32', 'opt', tag='age'), progs.leaf('Score', 'float64', 'opt', tag='score')], 'rep', tag='friends')])
     return P
 
 
